@@ -488,7 +488,7 @@ func init() {
 			d = 2
 		}
 		o := []Oracle{oracleC17{}}
-		lo := AlphaOpts{RespKinds: []string{"ok", "bad"}, CtxOps: []string{"pause", "kill"}, Updates: []CtxUpdate{updTimeout2}, Withdraw: []string{"O1:P1"}, SetW: []string{"O1:W1"},
+		lo := AlphaOpts{RespKinds: []string{"ok", "bad", "utf8"}, CtxOps: []string{"pause", "kill"}, Updates: []CtxUpdate{updTimeout2}, Withdraw: []string{"O1:P1"}, SetW: []string{"O1:W1"},
 			BindOps: []Action{actDisable("a", "P1", "O1")}}
 		return []RunSpec{
 			{Name: "names-queries", Sc: scNames(defaultParams(), 5+d, 3, 4), Oracles: o, Post: queryPost},
